@@ -256,9 +256,15 @@ func linearizable(events []*qevent) (bool, string) {
 						}
 					}
 				}
+				// in-flight calls that shift the balance between values and availability tokens: a RemoveHead
+				// that may already hold a token, and an AddValue that has not sent its token yet (its value may
+				// have been delivered on somebody else's token, so one more value stays behind)
 				claims := 0
 				for j, o := range ops {
 					if o.Op == "Remove" && mask&(1<<j) == 0 && (e.Ret == 0 || o.Inv < e.Ret) {
+						claims++
+					}
+					if o.Op == "Add" && (e.Ret == 0 || o.Inv < e.Ret) && (o.Ret == 0 || o.Ret > e.Inv) {
 						claims++
 					}
 				}
